@@ -361,7 +361,7 @@ impl CommandLine {
 
         let mut background = false;
         let len = tokens.len();
-        if len > 1 && tokens[len - 1].1 == "&" {
+        if len > 1 && tokens[len - 1].0.is_empty() && tokens[len - 1].1 == "&" {
             background = true;
             tokens.pop();
         }
